@@ -4,6 +4,7 @@ package main
 
 import (
 	"fmt"
+	"sync"
 	"go/constant"
 	"go/token"
 	"go/types"
@@ -113,12 +114,20 @@ type Exec struct {
 	recursive map[*ssa.Function]bool
 	nonNilGlobals map[string][]Term
 	globalSeen [][2]string
+	boundCalls map[string]bool
+	busyHits  int
+	rootWrites []writeTarget
+	symMu     sync.Mutex
+	intQuants []intQuant
+	idxTerms  []Term
+	idxSeen   map[string]bool
+	boxOf     map[string]Term // defined Any symbol -> the reference it boxes
 }
 
 func newExec(w *World) *Exec {
 	e := &Exec{W: w, reg: newTypeReg(), declared: map[string]bool{}, compSort: map[string]string{}, compInit: map[string]Term{},
 		notes: map[string]bool{}, assumes: map[string]bool{}, abstracted: map[string]bool{}, oblNames: map[string]int{},
-		recursive: map[*ssa.Function]bool{}, symAt: map[string]int{}, modsMemo: map[*ssa.Function][]string{}, modsBusy: map[*ssa.Function]bool{}, trackCalled: map[string]bool{}, siteSeq: map[string]int{}}
+		boundCalls: map[string]bool{}, boxOf: map[string]Term{}, recursive: map[*ssa.Function]bool{}, symAt: map[string]int{}, modsMemo: map[*ssa.Function][]string{}, modsBusy: map[*ssa.Function]bool{}, trackCalled: map[string]bool{}, siteSeq: map[string]int{}}
 	return e
 }
 
@@ -176,6 +185,104 @@ func (e *Exec) assume(t Term, note string) {
 	e.items = append(e.items, Item{Kind: ItemAssume, Text: fmt.Sprintf("(assert %s)", t), Note: note})
 }
 
+// Quantifiers over an integer index whose body reads slices at (offset + index) defeat E-matching
+// (arithmetic under the trigger). The generator therefore instantiates them itself at every index
+// term the program uses: for Q = (forall i. P(i)) the axiom (=> Q P(t)) is valid, and so is
+// (=> P(t) Q) for Q = (exists i. P(i)); adding them is sound whatever the polarity of Q.
+type intQuant struct {
+	q       Term
+	inst    func(t Term) Term
+	forall  bool
+	created int
+}
+
+func (e *Exec) registerIntQuant(q Term, inst func(t Term) Term, forall bool) {
+	if e.inQuant > 0 {
+		return
+	}
+	iq := intQuant{q: q, inst: inst, forall: forall, created: len(e.items)}
+	e.intQuants = append(e.intQuants, iq)
+	for _, t := range e.idxTerms {
+		e.instantiate(iq, t)
+	}
+}
+
+func (e *Exec) instantiate(iq intQuant, t Term) {
+	if iq.forall {
+		e.assumeKeyed(iq.q, Implies(iq.q, iq.inst(t)), "")
+	} else {
+		e.assumeKeyed(iq.q, Implies(iq.inst(t), iq.q), "")
+	}
+}
+
+// noteIndexTerm: the program (or a contract) indexes a slice at t.
+func (e *Exec) noteIndexTerm(t Term) {
+	if e.inQuant > 0 || e.idxSeen[t] {
+		return
+	}
+	if e.idxSeen == nil {
+		e.idxSeen = map[string]bool{}
+	}
+	e.idxSeen[t] = true
+	e.idxTerms = append(e.idxTerms, t)
+	for _, iq := range e.intQuants {
+		e.instantiate(iq, t)
+	}
+}
+
+type snapshot struct {
+	nitems, nobl, nlog, nq, nidx int
+	declared                      map[string]bool
+	compInit                      map[string]Term
+	idxSeen                       map[string]bool
+}
+
+func (e *Exec) snapshot() *snapshot {
+	sn := &snapshot{nitems: len(e.items), nobl: len(e.obls), nlog: len(e.wlog), nq: len(e.intQuants), nidx: len(e.idxTerms),
+		declared: map[string]bool{}, compInit: map[string]Term{}, idxSeen: map[string]bool{}}
+	for k := range e.declared {
+		sn.declared[k] = true
+	}
+	for k, v := range e.compInit {
+		sn.compInit[k] = v
+	}
+	for k := range e.idxSeen {
+		sn.idxSeen[k] = true
+	}
+	return sn
+}
+
+// rollback drops everything generated since the snapshot, but keeps components first seen since then
+// registered (their initial versions are re-declared).
+func (e *Exec) rollback(sn *snapshot) {
+	newComps := map[string]Term{}
+	for k, v := range e.compInit {
+		if _, ok := sn.compInit[k]; !ok {
+			newComps[k] = v
+		}
+	}
+	e.items = e.items[:sn.nitems]
+	e.obls = e.obls[:sn.nobl]
+	e.intQuants = e.intQuants[:sn.nq]
+	e.idxTerms = e.idxTerms[:sn.nidx]
+	e.idxSeen = sn.idxSeen
+	e.declared = sn.declared
+	for _, k := range sortedKeys(newComps) {
+		init := newComps[k]
+		e.symAt[init] = len(e.items)
+		e.items = append(e.items, Item{Kind: ItemDecl, Sym: init, Text: fmt.Sprintf("(declare-const %s %s)", init, e.compSort[k])})
+		e.initCompFacts(k, e.compSort[k], init)
+	}
+}
+
+// assumeKeyed: an assumption that is only useful for reasoning about symbol `key`.
+func (e *Exec) assumeKeyed(key string, t Term, note string) {
+	if t == "true" || e.inQuant > 0 {
+		return
+	}
+	e.items = append(e.items, Item{Kind: ItemAssume, Text: fmt.Sprintf("(assert %s)", t), Note: note, Key: key})
+}
+
 func (e *Exec) note(s string) {
 	if e.discovery == 0 {
 		e.notes[s] = true
@@ -208,10 +315,10 @@ func (e *Exec) initCompFacts(name, sort string, sym Term) {
 	}
 	if strings.HasPrefix(name, "MD_") {
 		// the nil map is empty
-		e.assume(Eq(Select(sym, "0"), fmt.Sprintf("((as const %s) false)", elemSortOfArray(sort))), "nil map is empty")
+		e.assumeKeyed(sym, Eq(Select(sym, "0"), fmt.Sprintf("((as const %s) false)", elemSortOfArray(sort))), "nil map is empty")
 	}
 	if strings.HasPrefix(name, "ML_") {
-		e.assume(Eq(Select(sym, "0"), "0"), "nil map has length 0")
+		e.assumeKeyed(sym, Eq(Select(sym, "0"), "0"), "nil map has length 0")
 	}
 }
 
@@ -1038,6 +1145,22 @@ func (e *Exec) enterLoop(f *Frame, li *loopInfo, h *ssa.BasicBlock, st *State, r
 	// 4. havoc
 	hs := st.clone()
 	e.applyHavoc(hs, mods)
+	if e.rootCtr != nil && e.rootCtr.Writes != nil {
+		// the function's writes clause frames the loop: cells allocated before the call and not listed are unchanged
+		for _, m := range sortedKeys(mods) {
+			so := e.compSort[m]
+			if m == allocComp || !strings.HasPrefix(so, "(Array Int ") || !mods[m][""] {
+				continue
+			}
+			cond := []Term{app("<=", "rq", e.compInit[allocComp])}
+			for _, t := range e.rootWrites {
+				cond = append(cond, Not(t.contains("rq")))
+			}
+			old := e.comp(st, m, so)
+			nw := hs.comps[m]
+			e.assumeKeyed(nw, fmt.Sprintf("(forall ((rq Int)) (! (=> %s (= (select %s rq) (select %s rq))) :pattern ((select %s rq))))", And(cond...), nw, old, nw), "loop frame from the writes clause")
+		}
+	}
 	li.phiSyms = map[*ssa.Phi]Val{}
 	for _, ins := range h.Instrs {
 		phi, ok := ins.(*ssa.Phi)
@@ -1088,9 +1211,7 @@ func (e *Exec) autoPhiFacts(f *Frame, li *loopInfo, phi *ssa.Phi, nv, entry Val,
 }
 
 func (e *Exec) discoverLoopMods(f *Frame, li *loopInfo, st *State, reach Term, entryPhi map[*ssa.Phi]Val) modSet {
-	// snapshot
-	nitems, nobl := len(e.items), len(e.obls)
-	logStart := len(e.wlog)
+	sn := e.snapshot()
 	savedDone := map[*ssa.BasicBlock]bool{}
 	for k, v := range f.done {
 		savedDone[k] = v
@@ -1100,14 +1221,6 @@ func (e *Exec) discoverLoopMods(f *Frame, li *loopInfo, st *State, reach Term, e
 		savedVals[k] = v
 	}
 	savedRets, savedDefers := len(f.rets), len(f.defers)
-	savedDeclared := map[string]bool{}
-	for k := range e.declared {
-		savedDeclared[k] = true
-	}
-	savedCompInit := map[string]Term{}
-	for k, v := range e.compInit {
-		savedCompInit[k] = v
-	}
 	e.discovery++
 	for phi, v := range entryPhi {
 		f.vals[phi] = v
@@ -1147,16 +1260,9 @@ func (e *Exec) discoverLoopMods(f *Frame, li *loopInfo, st *State, reach Term, e
 		check(r.state)
 	}
 	e.discovery--
-	// rollback (keep component registrations so that havoc can name them)
-	newComps := map[string]Term{}
-	for k, v := range e.compInit {
-		if _, ok := savedCompInit[k]; !ok {
-			newComps[k] = v
-		}
-	}
-	e.items = e.items[:nitems]
-	e.obls = e.obls[:nobl]
-	e.declared = savedDeclared
+	ms := e.refineMods(changed, sn.nlog, sn.nitems)
+	e.wlog = e.wlog[:sn.nlog]
+	e.rollback(sn)
 	f.done = savedDone
 	f.vals = savedVals
 	f.rets = f.rets[:savedRets]
@@ -1166,14 +1272,6 @@ func (e *Exec) discoverLoopMods(f *Frame, li *loopInfo, st *State, reach Term, e
 		delete(f.exit, b)
 		delete(f.reach, b)
 	}
-	// re-declare initial versions of components first seen during discovery
-	for _, k := range sortedKeys(newComps) {
-		init := newComps[k]
-		e.items = append(e.items, Item{Kind: ItemDecl, Sym: init, Text: fmt.Sprintf("(declare-const %s %s)", init, e.compSort[k])})
-		e.initCompFacts(k, e.compSort[k], init)
-	}
-	ms := e.refineMods(changed, logStart, nitems)
-	e.wlog = e.wlog[:logStart]
 	return ms
 }
 
